@@ -328,14 +328,17 @@ class SimProcess:
             # BaseProcess._bootstrap: finally: util._flush_std_streams()
             ent.set_phase('exit')
             sim.yp('p.exitflush')
-            for which in ('stdout', 'stderr'):
-                s = simos.stream_of(ent, which)
-                try:
-                    s.flush()
-                except (SimAbort, _Frozen):
-                    raise
-                except BaseException:
-                    pass
+            # fork: _bootstrap flushes once, then os._exit.  spawn: _bootstrap flushes, then
+            # the child interpreter finalises and flushes sys.stdout/sys.stderr once more.
+            for _round in range(2 if ent.flavour == 'spawn' else 1):
+                for which in ('stdout', 'stderr'):
+                    s = simos.stream_of(ent, which)
+                    try:
+                        s.flush()
+                    except (SimAbort, _Frozen):
+                        raise
+                    except BaseException:
+                        pass
             sim.ev('pexit', ent.name, code)
         except (SimAbort, _Frozen):
             return
